@@ -45,14 +45,14 @@ CLAIMS["C07"] = (
 )
 
 CLAIMS["C08"] = (
-    "scaling-law abstract interpretation (monomial domain, reduced-axes and cross-batch tracking) + closed forms + preservation-table ordering check of the factory composites",
+    "scaling-law abstract interpretation (monomial domain, reduced-axes and cross-batch tracking; variance as a statistic of its own) + constructor-alias and result-dtype lints + closed forms + preservation-table ordering check of the factory composites",
     "Total/average/per-antenna power constraints: the result is derived to be x*s with s>0 deterministic and s^2*current power = target exactly (literal eps<=1e-6 is the identity), with the current power reduced per item (per antenna) and no statistic across the batch in the factor; the zero-signal substitute has the target power; batched and single-item branches obey the same law. Peak amplitude: every return is the symmetric clamp. PAPR: clipping stores keep the direction v/(|v|+eps); one final clip outside the loop on every path with bound^2 = avg_power*max_papr*c, c<=1. Composites: sequential loop; for every configuration of the OFDM/MIMO factories the derived stage order is checked against a reasoned preservation table. These are necessary structural conditions for all inputs; convergence of iterative clipping and numeric tolerances are not decided. The PAPR projection is evaluated (own arithmetic) on dense real / complex / 2-D signals for limits 1.1 .. 4: output PAPR <= limit, every sample scaled by a real factor in [0, 1], the map commutes with rescaling the input, every branch and loop body entered; the structural PAPR rules are the fallback.",
     "Trusted: scaling.py transfer functions, the preservation table in props/c08.py (each entry reasoned), torch reshape/sum/mean/clamp semantics. Findings recorded in known_findings.json (factory orderings pinned by the suite or not repairable by ordering).",
     "DESIGN.md §2 C08",
 )
 
 CLAIMS["C12"] = (
-    "structural dataflow rules (Bernoulli idiom, masked stores), finite truth-table evaluation of the {0,1}/{-1,+1} maps, may-alias/effect analysis",
+    "own-arithmetic evaluation of two-block histories (single-symbol blocks, integer-typed bits) with module helpers followed, structural dataflow rules (Bernoulli idiom, masked stores), finite truth-table evaluation of the {0,1}/{-1,+1} maps, may-alias/effect analysis",
     "Binary symmetric / erasure / Z channels: every flip/erase indicator is `U < p` with U from rand/rand_like and p the configured, validated probability (strictness and direction checked, so p = 0 is the identity and p = 1 the extreme); the BSC output expression has the XOR truth table over {0,1}^2; Z-channel stores are masked by x == 1 and write where(event, 0, old); BEC stores only the erasure symbol under the erase mask into a clone; the bipolar conversions map -1/+1 to 0/1 and back under one flag; an alias/effect analysis shows no write reaches storage shared with the input. Decides the support/transition structure for every input; rates and independence are statistics and are not decided. Since seed round 6 the transition clause is decided first by evaluating forward (own arithmetic, class helpers followed, constructor attributes carried from call to call) on two-block histories - {0,1} and -1/+1 blocks in every order on one object, p = 0, 0.5, 1, fixed table of uniform draws, both exact spellings U < p / U >= 1 - p; the spelling rules are the fallback.",
     "Trusted: torch.rand* samples lie in [0,1); clone()/arithmetic allocate, float()/view/indexing may alias; closed forms listed in props/c12.py.",
     "DESIGN.md §2 C12",
@@ -73,14 +73,14 @@ CLAIMS["C06"] = (
 )
 
 CLAIMS["C14"] = (
-    "constant folding of literal tables + own validators (bijection, energy, nearest-neighbour Gray adjacency); recognition of label generator / position permutation of generated tables with own arithmetic over all orders; closed forms",
+    "constant folding of literal tables + own validators (bijection, energy, nearest-neighbour Gray adjacency); geometry of the evaluated PSK / DPSK / PAM tables (distinct, equally spaced); recognition of label generator / position permutation of generated tables with own arithmetic over all orders; closed forms",
     "Literal constellations (BPSK, QPSK, OQPSK, pi/4-QPSK in both rotations and labellings, with and without normalisation) are extracted from the syntax tree by constant folding and validated by the checker: 2^b distinct points, labels a bijection, unit average energy, one-bit difference between all nearest neighbours where Gray labelling is promised, and a common pi/4 rotation between the two pi/4-QPSK constellations. For PSK/DPSK/PAM/QAM the label generator and the position permutation are recognised from the construction code and their composition is decided to be bijective and Gray along physical neighbours for every supported order. Normalisation must be division by sqrt(mean|c|^2) on every configuration path; the Gray utilities must have the closed forms valid for all non-negative integers (bounded log-step variants rejected), array forms elementwise. Decides the tables for all orders/options, exactly; custom user constellations are not covered.",
     "Trusted: constfold.py (own evaluation of literal arithmetic), the recognisers of the construction loops (unknown shapes -> exit 2).",
     "DESIGN.md §2 C14",
 )
 
 CLAIMS["C01"] = (
-    "closed-form / operand analysis of the encode and syndrome forms, MRO enumeration of overrides, verified-return (must-pass-through) rule on the null-space helpers, index-set def-use agreement, dead-branch (T-str) and special-case lint, information-set dependence",
+    "whole-function own-arithmetic evaluation of encode / syndrome / LDPC generator (parity-check matrices with dependent rows), argument-mutation lint on the information-set helper, closed-form / operand analysis of the encode and syndrome forms, MRO enumeration of overrides, verified-return (must-pass-through) rule on the null-space helpers, index-set def-use agreement, dead-branch (T-str) and special-case lint, information-set dependence",
     "Decides structural necessary conditions of 'encoder, G and H describe one code': forward() multiplies each block by the published generator_matrix mod 2 (right operand, no transpose, block size k) and calculate_syndrome by check_matrix transposed (block size n); every subclass override is enumerated through the MRO and must be an analysed conforming form; the systematic generator and the systematic forward() use one index computation (scatter to information/parity sets; gather-with-the-forward-permutation and value-keyed shortcuts are violations); check-matrix overrides lay I on the parity set and P^T on the information set and contain no tensor==string dead branch; every return of compute_null_space_matrix is an exact GF(2) elimination result or a verified object, never a constant fallback; the LDPC generator is cut at the rank; no class re-registers matrices that ignore its information set. Rank/null-space equality as numbers is not decided. The buffers describing one code (generator and check matrix; for C04 generator and right inverse) must share one persistence.",
     "Trusted: the recognisers in props/c01.py and fecrules.py (unknown shapes -> exit 2), torch matmul/indexing semantics.",
     "DESIGN.md §2 C01",
@@ -93,35 +93,35 @@ CLAIMS["C04"] = (
 )
 
 CLAIMS["C03"] = (
-    "literal table extraction + own GF(2) arithmetic (codeword enumeration, polynomial division, cyclotomic cosets), closed-form matching of advertised formulas, def-use dependence of the extension column, layout (degree) reasoning for the cyclic parity slice",
+    "own-arithmetic evaluation of the cyclic polynomial encoder and the enumerated distance in both generator layouts, literal table extraction + own GF(2) arithmetic (codeword enumeration, polynomial division, cyclotomic cosets), closed-form matching of advertised formulas, def-use dependence of the extension column, layout (degree) reasoning for the cyclic parity slice",
     "Constants and formulas behind the advertised (n, k, d): the literal Golay parity submatrix is enumerated by the checker (d = 7, perfect, weight enumerator; extension column evaluated from the source expression gives d = 8) and compared with the advertised values; every tabulated cyclic / BCH / RS standard code is validated against its name (divisibility of X^n+1, n - deg g = k, textbook distance, cyclotomic-coset dimension, Bose distance); the advertised closed forms of Hamming, Reed-Muller, repetition, SPC, BCH and code_rate are matched; the extension column must depend on the row sums; Hamming parity rows enumerate all weight>=2 tuples; the cyclic parity slice is the parity columns [0, n-k) of the systematic generator for every information set; no distance method may advertise an upper bound. True distances of constructed (non-tabulated) codes are not decided. The Reed-Muller generator is evaluated for every 0 <= r < m <= 5 (rank and span of the monomials of degree <= r), BinaryPolynomial.lcm is tabulated.",
     "Trusted: gf2.py (cross-checked against known codes in the self-test), recognisers of the construction code (unknown shapes -> exit 2).",
     "DESIGN.md §2 C03",
 )
 
 CLAIMS["C02"] = (
-    "special-case lint with input/row-index taint, loop-bound and insertion-guard recognisers (coset-leader minimality), closed forms of the ML decision and of the Berlekamp-Massey / Chien / Hamming steps",
+    "narrow-integer-dtype lint on the message enumeration, special-case lint with input/row-index taint, loop-bound and insertion-guard recognisers (coset-leader minimality), closed forms of the ML decision and of the Berlekamp-Massey / Chien / Hamming steps",
     "Structural necessary conditions of 'hard-decision decoders correct <= t errors / complete decoders are ML': no decoder or encoder inverse branches on equality of the syndrome, the received length, the field size or the batch row index with a literal (row index only as subscript); the syndrome table is built by ascending weight over exhaustive supports with first-come insertion from the decoder's own encoder, corrections XOR the leader and messages are extracted by the encoder; the brute-force decoder enumerates all 2^k messages through the encoder and takes the argmin Hamming distance with message and codeword at the same index; Berlekamp-Massey takes t and the field from the encoder, evaluates S_1..S_2t, searches all n positions and flips exactly the located bits; the Hamming inverse locates the check-matrix column equal to the syndrome. Whether the algebraic algorithms actually correct every pattern of weight <= t is behaviour over field values and is not decided (the Reed-Muller majority decoder is a placeholder). The syndrome-lookup decoder's forward is evaluated on every codeword of the (7,4) Hamming code with 0 / 1 flipped bit, the Berlekamp-Massey decoder's forward over GF(16) on codewords of the (15,7) BCH code with 0, 1, 2 flipped bits, the error-pattern generator for n = 4..6 and every weight.",
     "Trusted: recognisers in props/c02.py (unknown shapes -> exit 2).",
     "DESIGN.md §2 C02",
 )
 
 CLAIMS["C11"] = (
-    "table validation against an independent copy of the 5G reliability sequence (+ permutation / dominance), closed forms and truth tables of the SC f/g/partial-sum functions, frozen-value selector agreement (sibling rule + polarity engine)",
+    "table validation against an independent copy of the 5G reliability sequence (+ permutation / dominance), closed forms and truth tables of the SC f/g/partial-sum functions, frozen-value selector agreement (sibling rule + polarity engine) and boolean typing of the frozen-position mask",
     "Polar codes: kernel literal and number of Kronecker steps; the reliability table file is parsed by the checker and must be a permutation of 0..1023, respect bitwise-subset dominance and equal the TS 38.212 sequence entry by entry; the frozen set is the first N-k ranked positions below N and user masks are validated; encoder, SC leaf and polar-BP initialisation agree on the frozen value (BP: +clip for a frozen 0, by the library's LLR polarity); the SC recursion has the textbook shape (f by regime, g = y2 + (1-2x) y1 un-saturated, partial sums (x1 xor x2, x2), consistent half / even-odd splits, helper closed forms). The encoder's transform is tabulated (own arithmetic) on every unit vector for N = 2..32 against u F^(x)m, columns bit-reversed for the interleaved variant, and the per-block encoder on every message for N = 4, 8 (both frozen values, both variants); the polar BP decoder keeps the answers of words that passed the stop criterion outside the re-initialised graph. SC decisions as values for arbitrary LLRs and BP convergence are not decided.",
     "Trusted: /verif/fixtures/ts38212_polar_sequence.txt (an independent copy of TS 38.212 Table 5.3.1.2-1; it agrees entry by entry with the repository's table on the pinned tree), recognisers in props/c11.py.",
     "DESIGN.md §2 C11",
 )
 
 CLAIMS["C20"] = (
-    "may-alias / effect analysis, row-index taint, batch-coupling rule, cache-key completeness (def-use dependence through the class's own methods), read-before-write state analysis, list-subscript rule, sibling agreement of zero-signal tests",
+    "may-alias / effect analysis, row-index taint, batch-coupling rule (also a per-word quantity against its own whole-tensor reduction), cache-key completeness (def-use dependence through the class's own methods), read-before-write state analysis, list-subscript rule, sibling agreement of zero-signal tests",
     "Over every encoder, decoder, modulator, demodulator and constraint class (enumerated through the MRO, floor 45): forward / inverse_encode / calculate_syndrome never write through a value that may share storage with an input (including noise_var); the batch row index is used only as a subscript; a decoder's iteration loop is not cut short by a whole-batch reduction unless updates are row-masked; every store into a module-, class- or instance-level cache is keyed by everything the cached value depends on (instance configuration / mutable state, through the class's helper methods); stateless components carry no value from one call to the next; tensors are not subscripted by coordinate lists; the batched and single-item branches of the power constraints select the zero-signal path by the same quantity. These are necessary conditions of 'batch result = stack of single results, repeatable, input unmodified'; value equality itself is not decided.",
     "Trusted: effects.py aliasing table (float()/to()/view/indexing/as_tensor may alias; clone/arithmetic allocate), the allow-lists in props/c20.py (each with its reason).",
     "DESIGN.md §2 C20",
 )
 
 CLAIMS["C19"] = (
-    "gradient-flow abstract interpretation (autograd-connectivity lattice D/K/M/B with severing-site provenance, saved-tensor / in-place version analysis, interprocedural over repo helpers) + conv/transposed-conv layer arithmetic from constructor literals + grid evaluation of the filter-count formula",
+    "view-of-input lint + gradient-flow abstract interpretation (autograd-connectivity lattice D/K/M/B with severing-site provenance, saved-tensor / in-place version analysis, interprocedural over repo helpers) + conv/transposed-conv layer arithmetic from constructor literals + grid evaluation of the filter-count formula",
     "Every analog channel (AWGN, Laplacian, phase noise, flat/Rayleigh/Rician/log-normal fading, nonlinear), every power constraint (total, average, PAPR, per-antenna), the AF module and the sequential forward are interpreted over a lattice that tracks whether a value is connected to the signal parameter by an unbroken autograd graph: every returned value must be connected (no .item()/.detach()/.data/float()/torch.tensor()/numpy/no_grad on the signal path, not piecewise constant), and no tensor that an op on the path saved for backward - nor the caller's input - may be modified in place afterwards (ordering by evaluation sequence, exclusive branches excluded). DeepJSCCModel's stage list is [encoder, constraint, channel, decoder] by parameter identity. The bundled image encoders/decoders are checked layer by layer from constructor literals: stride-2 convs halve every even size, transposed convs double it, stride-1 layers preserve it, encoder down-steps equal decoder up-steps, plain chains agree on channels, documented [0,1] decoders end in Sigmoid; the filter-count helper equals channels*4^layers*ratio(*2 complex) on a 64-point grid. Decides these structural necessary conditions, not gradient values or non-vanishing.",
     "Trusted: the saved-tensor table of gradflow.py (which torch ops keep their input / result for backward), differentiability of torch ops not listed as severing or piecewise constant, of user-supplied nonlinear functions and of compressai blocks (summarised by their stride/upsample arguments). Unknown layer types or non-literal geometry -> exit 2.",
     "DESIGN.md §2 C19",
